@@ -169,6 +169,9 @@ func (g *gen) filler() string {
 func (g *gen) input() (string, int) {
 	delim := ";"
 	var b strings.Builder
+	if g.r.IntN(25) == 0 {
+		b.WriteString("\uFEFF") // UTF-8 byte order mark, as editors on Windows write it
+	}
 	if g.r.IntN(6) == 0 {
 		delim = g.pick("$$", "//", "\\n\\n", "-- end")
 		b.WriteString("-- atlas:delimiter " + delim + "\n")
